@@ -95,6 +95,11 @@ func GenTimed(r *rand.Rand) TimedScenario {
 		if sc.Op == "intervalinitial" {
 			sc.UnsubAt += sc.P2
 		}
+		if (sc.Op == "interval" || sc.Op == "intervalinitial") && r.Intn(3) == 0 {
+			// the periodic sources watch the subscription context: cancelled well before the unsubscription, they fall silent
+			sc.CancelAt = 1 + r.Intn(sc.UnsubAt/2)
+			sc.UnsubAt += 6 * sc.D
+		}
 	}
 	return sc
 }
